@@ -1,10 +1,354 @@
-/- C13 property theorems (in progress) -/
-import Nq.Local
-import Nq.Spec.LocalSpec
+/-
+  C13 — Delivery instructions are interpreted as documented and loops are cut.
+
+  Model: `Nq.Local` (qmail-local.c: safeext, qmesearch/qmeexists, checkhome, bouncexf, the Delivered-To /
+  Return-Path lines, the -owner sender, the instruction loop, mailprogram's exit switch, main() as `run`),
+  tied to the source by the translator (exit switch, conf-patrn, sticky / x bits, exit codes of the fixed
+  diagnostics: `Nq.Gen.LocalExit`) and by the differential harness `harness/c13_local.c`, which runs the
+  real `main()` in generated home directories.  `Nq.LocalSpec` is the documentation (dot-qmail(5),
+  qmail-local(8), qmail-command(8)) written independently; compiled, it is the oracle of the check.
+-/
+import Nq.Lemmas.Local
 
 namespace Nq.Props.C13
-open Nq Nq.Local
+open Nq Nq.Local Nq.Gen.LocalExit Nq.Lemmas.Local
 
-theorem C13_placeholder : safeext [] = [] := rfl
+/-! ### Which file controls the address -/
+
+/-- **Search order.** For every `dash` and every extension the candidate names are exactly the documented
+list: `.qmail<dash><ext>` (lower-cased, dots replaced by colons), then `.qmail<dash><prefix>default` for
+the prefixes that are empty or end in a dash, longest first. -/
+theorem C13_search_order (dash ext : Bytes) :
+    (qmeCandidates dash (safeext ext)).map Cand.name = LocalSpec.candidates dash ext :=
+  candidates_eq_spec dash ext
+
+/-- …the `-default` candidates are indexed by strictly decreasing cut positions, each at a dash boundary, and
+every boundary occurs (this is the loop of `qmesearch` itself, without reference to the specification). -/
+theorem C13_search_boundaries (sx : Bytes) :
+    (defIdx sx).Pairwise (· > ·) ∧ ∀ i, i ∈ defIdx sx ↔ i ≤ sx.length ∧ (i = 0 ∨ sx.getD (i - 1) 0 = DASH) :=
+  ⟨defIdxFrom_sorted sx sx.length, fun i => mem_defIdxFrom sx sx.length i⟩
+
+/-- **Selection.** A file is used iff it is the first candidate, in that order, that exists as a regular
+file — and then only if it is not writable by others. -/
+theorem C13_search (fs : Bytes → FStat) (cs : List Cand) (c : Cand) (mode : Nat) (content : Bytes) :
+    qmeSelect fs cs = .found c mode content ↔
+      ∃ pre post, cs = pre ++ c :: post ∧ (∀ x ∈ pre, fs x.name = .absent) ∧
+        fs c.name = .reg mode content ∧ mode &&& patrn = 0 :=
+  qmeSelect_found_iff fs c mode content cs
+
+/-- the first candidate that is not absent decides — also when it cannot be read (defer) or is writable (defer) -/
+theorem C13_search_decides (fs : Bytes → FStat) (pre post : List Cand) (c : Cand)
+    (hpre : ∀ x ∈ pre, fs x.name = .absent) (hc : fs c.name ≠ .absent) :
+    qmeSelect fs (pre ++ c :: post) =
+      (match fs c.name with
+       | .temp => .temp c.name
+       | .reg m ct => if m &&& patrn ≠ 0 then .writable c.name else .found c m ct
+       | .absent => .nofile) :=
+  qmeSelect_decides fs c post pre hpre hc
+
+/-- no file is selected iff none of the candidates exists -/
+theorem C13_search_none (fs : Bytes → FStat) (cs : List Cand) :
+    qmeSelect fs cs = .nofile ↔ ∀ x ∈ cs, fs x.name = .absent :=
+  qmeSelect_nofile_iff fs cs
+
+/-- the names the agent opens are exactly those the documented procedure has to look at, in order -/
+theorem C13_search_opens (fs : Bytes → FStat) (look : Bytes → LocalSpec.Entry)
+    (hl : ∀ n, look n = .missing ↔ fs n = .absent) (dash ext : Bytes) :
+    qmeTried fs (qmeCandidates dash (safeext ext)) = LocalSpec.mustOpen look (LocalSpec.candidates dash ext) := by
+  rw [← candidates_eq_spec]; exact qmeTried_eq_spec fs look hl _
+
+/-- **Confinement.** Every name looked up is `.qmail` ++ dash ++ s where s contains no dot and no
+upper-case letter, whatever bytes the extension contains (slashes included). -/
+theorem C13_confined (dash ext : Bytes) (c : Cand) (hc : c ∈ qmeCandidates dash (safeext ext)) :
+    ∃ s, c.name = dotQmail ++ dash ++ s ∧ DOT ∉ s ∧ ∀ b ∈ s, ¬ (65 ≤ b ∧ b ≤ 90) :=
+  candidate_shape dash ext c hc
+
+/-- …hence, `dash` being dot-free (it is "" or "-" in every standard configuration), the name is relative,
+begins with ".qmail" and contains no "..": the lookup cannot climb out of the home directory. -/
+theorem C13_confined_nodotdot (dash ext : Bytes) (hd : DOT ∉ dash) (c : Cand)
+    (hc : c ∈ qmeCandidates dash (safeext ext)) : LocalSpec.confined c.name = true := by
+  obtain ⟨s, e, hs, _⟩ := candidate_shape dash ext c hc
+  rw [e, List.append_assoc]
+  exact confined_of_no_dot (dash ++ s) (fun h => by rcases List.mem_append.1 h with h | h; exact hd h; exact hs h)
+
+/-- **$DEFAULT** (qmail-command(8)): for whichever candidate is selected, the variable is set iff the file name
+ends in "default", to the part of the original (not lower-cased) extension that the word stands for. -/
+theorem C13_default_env (dash ext : Bytes) (c : Cand) (hc : c ∈ qmeCandidates dash (safeext ext)) :
+    c.dflt.map (fun i => ext.drop i) = LocalSpec.defaultVar dash ext c.name :=
+  default_eq_spec dash ext c hc
+
+/-- no mailbox: with a non-empty `dash` the message bounces (100) and nothing is delivered -/
+theorem C13_nofile (a : Args) (w : World) (hh : HomeOK a w) (hn : NoLoop a)
+    (hs : qmeSelect w.fs (qmeCandidates a.dash (safeext a.ext)) = .nofile) (hd : a.dash ≠ []) :
+    Refused (run a w) 100 ∧ (run a w).why = some .noMailbox :=
+  run_nofile_dash a w hh hn hs hd
+
+/-- …with an empty `dash` (the user's own address) the default delivery instructions are followed -/
+theorem C13_nofile_default (a : Args) (w : World) (hh : HomeOK a w) (hn : NoLoop a)
+    (hs : qmeSelect w.fs (qmeCandidates a.dash (safeext a.ext)) = .nofile) (hd : a.dash = []) (u : Bytes)
+    (hu : ueoOf a.loc a.dash (safeext a.ext) a.host a.sender w.ex = .ok u) :
+    ∃ r0, run a w = deliver a w a.aliasempty false r0 ∧ r0.ueo = some u :=
+  run_nofile_nodash a w hh hn hs hd u hu
+
+/-- a selected file is followed (with the x-bit restriction); a 0-byte file means the default instructions -/
+theorem C13_found (a : Args) (w : World) (hh : HomeOK a w) (hn : NoLoop a) (c : Cand) (mode : Nat) (content u : Bytes)
+    (hs : qmeSelect w.fs (qmeCandidates a.dash (safeext a.ext)) = .found c mode content)
+    (hu : ueoOf a.loc a.dash (safeext a.ext) a.host a.sender w.ex = .ok u) :
+    ∃ r0, r0.ueo = some u ∧ r0.sel = some c ∧
+      run a w = if content = [] then deliver a w a.aliasempty false r0 else deliver a w content (mode &&& xBit ≠ 0) r0 :=
+  run_found a w hh hn c mode content u hs hu
+
+/-! ### Permissions -/
+
+/-- a home directory writable by others (`conf-patrn` bits): defer (111); nothing opened, delivered or printed -/
+theorem C13_perm_home (a : Args) (w : World) (m : Nat) (hm : w.home = some m) (hw : m &&& patrn ≠ 0) :
+    Refused (run a w) 111 ∧ (run a w).tried = [] :=
+  ⟨(run_home_writable a w m hm hw).1, by simp [run, checkhome, hm, hw]⟩
+
+/-- a sticky home directory: defer (111) when delivering -/
+theorem C13_perm_sticky (a : Args) (w : World) (m : Nat) (hm : w.home = some m) (hs : m &&& stickyBit ≠ 0)
+    (hd : a.doit = true) : Refused (run a w) 111 :=
+  run_home_sticky a w m hm hs hd
+
+/-- a control file writable by others: defer (111), nothing delivered — even if a later candidate is fine -/
+theorem C13_perm_file (a : Args) (w : World) (hh : HomeOK a w) (hn : NoLoop a) (pre post : List Cand) (c : Cand)
+    (m : Nat) (ct : Bytes) (hc : qmeCandidates a.dash (safeext a.ext) = pre ++ c :: post)
+    (hpre : ∀ x ∈ pre, w.fs x.name = .absent) (hf : w.fs c.name = .reg m ct) (hm : m &&& patrn ≠ 0) :
+    Refused (run a w) 111 ∧ (run a w).why = some .qmailWritable := by
+  apply run_qmail_writable a w hh hn c.name
+  rw [hc, qmeSelect_decides w.fs c post pre hpre (by rw [hf]; simp), hf]
+  simp [hm]
+
+/-- a control file that cannot be read for a temporary reason: defer (111), no fallback to a later candidate -/
+theorem C13_perm_unreadable (a : Args) (w : World) (hh : HomeOK a w) (hn : NoLoop a) (pre post : List Cand) (c : Cand)
+    (hc : qmeCandidates a.dash (safeext a.ext) = pre ++ c :: post)
+    (hpre : ∀ x ∈ pre, w.fs x.name = .absent) (hf : w.fs c.name = .temp) : Refused (run a w) 111 := by
+  apply run_qmail_temp a w hh hn c.name
+  rw [hc, qmeSelect_decides w.fs c post pre hpre (by rw [hf]; simp), hf]
+
+/-- the bits are the ones in the tree: others-write, sticky, owner-execute; and all these refusals are deferrals -/
+theorem C13_perm_bits : patrn = 0o002 ∧ stickyBit = 0o1000 ∧ xBit = 0o100 ∧
+    Why.homeWritable.code = 111 ∧ Why.homeSticky.code = 111 ∧ Why.qmailWritable.code = 111 ∧
+    Why.xbitFile.code = 111 ∧ Why.xbitProg.code = 111 ∧ Why.blankFirst.code = 111 := by decide
+
+/-- **Executable .qmail / `+list`**: in forward-only state no file or program instruction is ever acted on… -/
+theorem C13_xbit (px : Bytes → PRes) (dx : Instr → Option Why) (lines : List Bytes) (first : Bool) :
+    ∀ i ∈ (dispatch px dx first true lines).did, isForward i = true :=
+  dispatch_forwardonly px dx lines first
+
+/-- …and the first such line ends the run with the x-bit diagnostic (111) -/
+theorem C13_xbit_refuses (px : Bytes → PRes) (dx : Instr → Option Why) (pre : List Bytes) (raw : Bytes) (post : List Bytes)
+    (i : Instr) (hpre : ∀ l ∈ pre, ∀ j, classify l = .act j → isForward j = true)
+    (hfirst : ∀ l ∈ pre.head?, classify l ≠ .blank) (hc : classify raw = .act i) (hi : isForward i = false) :
+    (dispatch px dx true true (pre ++ raw :: post)).fin = .die (if isProgram i then .xbitProg else .xbitFile) :=
+  dispatch_forwardonly_refuses px dx pre raw post true i hpre (fun _ => hfirst) hc hi
+
+/-- for `main()` as a whole: an executable, non-empty control file never causes a file or program delivery -/
+theorem C13_xbit_run (a : Args) (w : World) (c : Cand) (mode : Nat) (content : Bytes)
+    (hs : qmeSelect w.fs (qmeCandidates a.dash (safeext a.ext)) = .found c mode content)
+    (hne : content ≠ []) (hx : mode &&& xBit ≠ 0) :
+    ∀ e ∈ (run a w).effects, ∃ s rs, e = .queue s rs := by
+  rcases run_found_cases a w c mode content hs hne with ⟨code, _, _, he, _, _⟩ | ⟨r0, h⟩
+  · rw [he]; simp
+  · rw [h, deliver_effects]
+    intro e he
+    have hf : ∀ i ∈ (dtrace a w content (decide (mode &&& xBit ≠ 0))).did, isForward i = true := by
+      have hx' : decide (mode &&& xBit ≠ 0) = true := by simpa using hx
+      rw [hx']
+      unfold dtrace
+      split <;> exact dispatch_forwardonly _ _ _ _
+    rcases List.mem_append.1 he with he | he
+    · split at he
+      · obtain ⟨i, hi, _⟩ := List.mem_map.1 he
+        have := hf i (List.mem_filter.1 hi).1
+        have h2 := (List.mem_filter.1 hi).2
+        simp [this] at h2
+      · simp at he
+    · split at he
+      · simp at he; exact ⟨_, _, he⟩
+      · simp at he
+
+/-! ### The instruction loop -/
+
+/-- **Order and type.** Whatever the commands return, the instructions acted upon are an initial segment of the
+file's instructions (each classified by its first character), in file order. -/
+theorem C13_dispatch_order (px : Bytes → PRes) (dx : Instr → Option Why) (lines : List Bytes) (first fo : Bool) :
+    (dispatch px dx first fo lines).did <+: instrsOf lines :=
+  dispatch_prefix px dx lines first fo
+
+/-- if the loop reaches the end of the file, every instruction was acted upon -/
+theorem C13_dispatch_complete (px : Bytes → PRes) (dx : Instr → Option Why) (lines : List Bytes) (first fo : Bool)
+    (h : (dispatch px dx first fo lines).fin = .done) : (dispatch px dx first fo lines).did = instrsOf lines :=
+  dispatch_done px dx lines first fo h
+
+/-- **Exit code 99.** The loop stops right after that command: acted upon are exactly the instructions before it
+(so earlier forward lines are kept) and the command itself; nothing of the later lines. -/
+theorem C13_dispatch_99 (px : Bytes → PRes) (dx : Instr → Option Why) (lines : List Bytes) (first fo : Bool)
+    (h : (dispatch px dx first fo lines).fin = .stop99) :
+    ∃ pre raw post c code, lines = pre ++ raw :: post ∧ classify raw = .act (.program c) ∧
+      px (cstr c) = .exited code ∧ progClass code = .stop99 ∧
+      (dispatch px dx first fo lines).did = instrsOf pre ++ [.program c] :=
+  dispatch_stop99 px dx lines first fo h
+
+/-- **Failure.** A failing instruction ends the loop: nothing of the later lines is acted upon. -/
+theorem C13_dispatch_failure (px : Bytes → PRes) (dx : Instr → Option Why) (lines : List Bytes) (first fo : Bool) (y : Why)
+    (h : (dispatch px dx first fo lines).fin = .die y) :
+    ∃ pre raw post, lines = pre ++ raw :: post ∧
+      ((dispatch px dx first fo lines).did = instrsOf pre ∨
+        ∃ i, classify raw = .act i ∧ isForward i = false ∧ (dispatch px dx first fo lines).did = instrsOf pre ++ [i]) :=
+  dispatch_die px dx lines first fo y h
+
+/-- **Lines.** The instruction text is cut into lines as documented: every LF ends a line, a missing final LF is
+supplied, and a final LF does not start another (blank) line — for every byte string. Hence the trace of
+`main()` is `dispatch` over `LocalSpec.instrLines`, to which `C13_walk_spec` applies. -/
+theorem C13_lines_spec (text : Bytes) : splitLines (fixup text) = LocalSpec.instrLines text :=
+  splitLines_eq_spec text
+
+/-- **The loop is the documented walk (delivering).** For every list of lines, every behaviour of the commands
+and of the file deliveries, the C loop and the independently written specification `LocalSpec.walk` (one pass
+over the lines: stop at the first failure or exit 99, refuse file/program lines when forward-only, collect
+forward addresses) agree on the instructions acted upon, the deliveries made (in order), the addresses
+collected (in order) and the way the loop ends. -/
+theorem C13_walk_spec (px : Bytes → PRes) (dx : Instr → Option Why) (fileOK : LocalSpec.SInstr → Nat)
+    (hfile : ∀ i, fileOK (specOfInstr i) = match dx i with | some y => y.code | none => 0)
+    (hnz : ∀ i y, dx i = some y → y.code ≠ 0) (lines : List Bytes) (fo : Bool) :
+    let W := LocalSpec.walk true fo (fun c => toRan (px c)) fileOK lines
+    let t := dispatch px dx true fo lines
+    W.shown.reverse = t.did.map specOfInstr ∧ W.effects.reverse = t.did.filterMap effOf ∧
+      W.recips.reverse = (t.did.filterMap fwdAddr).map cstr ∧ W.status = finCode t.fin := by
+  have h := walk_eq px dx fileOK hfile hnz lines { forwardOnly := fo } rfl
+  obtain ⟨h1, h2, h3, h4⟩ := h
+  refine ⟨?_, ?_, ?_, h4⟩
+  · show (LocalSpec.walk true fo _ fileOK lines).shown.reverse = _
+    unfold LocalSpec.walk; rw [h1]; simp
+  · show (LocalSpec.walk true fo _ fileOK lines).effects.reverse = _
+    unfold LocalSpec.walk; rw [h2]; simp
+  · show (LocalSpec.walk true fo _ fileOK lines).recips.reverse = _
+    unfold LocalSpec.walk; rw [h3]; simp
+
+/-- **…and with `-n`**: nothing is run, nothing can fail except the x-bit and blank-first-line rules; the
+description printed is that of the documented walk. -/
+theorem C13_walk_spec_n (run : Bytes → LocalSpec.Ran) (fileOK : LocalSpec.SInstr → Nat) (lines : List Bytes) (fo : Bool) :
+    let W := LocalSpec.walk false fo run fileOK lines
+    let t := dispatch (fun _ => .exited 0) (fun _ => none) true fo lines
+    W.shown.reverse = t.did.map specOfInstr ∧ W.effects = [] ∧
+      W.recips.reverse = (t.did.filterMap fwdAddr).map cstr ∧ W.status = finCode t.fin := by
+  have h := walk_eq_n run fileOK lines { forwardOnly := fo } rfl
+  obtain ⟨h1, h2, h3, h4⟩ := h
+  refine ⟨?_, h2, ?_, h4⟩
+  · show (LocalSpec.walk false fo run fileOK lines).shown.reverse = _
+    unfold LocalSpec.walk; rw [h1]; simp
+  · show (LocalSpec.walk false fo run fileOK lines).recips.reverse = _
+    unfold LocalSpec.walk; rw [h3]; simp
+
+/-- **Forwarding comes last, and only after everything else succeeded.** The externally visible effects of
+following a control file are: the file and program deliveries in file order; then — only when delivering, only
+if the loop did not fail, only if forward addresses were collected — one forwarded copy, to exactly the
+collected addresses. With `-n` there are no effects at all. -/
+theorem C13_forward_last (a : Args) (w : World) (cmds : Bytes) (fo : Bool) (r : Result) :
+    (deliver a w cmds fo r).effects =
+      (if a.doit then ((dtrace a w cmds fo).did.filter (fun i => !isForward i)).map (fun i => Effect.deliver (cInstr i)) else []) ++
+      (if a.doit ∧ (dtrace a w cmds fo).fin.isDie = false ∧ (dtrace a w cmds fo).did.filterMap fwdAddr ≠ []
+       then [Effect.queue (r.ueo.getD []) (((dtrace a w cmds fo).did.filterMap fwdAddr).map cstr)] else []) :=
+  deliver_effects a w cmds fo r
+
+/-- a failed loop gives the exit code of its diagnostic -/
+theorem C13_failure_code (a : Args) (w : World) (cmds : Bytes) (fo : Bool) (r : Result) (y : Why)
+    (h : (dtrace a w cmds fo).fin = .die y) : (deliver a w cmds fo r).code = y.code ∧ (deliver a w cmds fo r).why = some y :=
+  deliver_code_die a w cmds fo r y h
+
+/-- every run of `main()` either stops before the first instruction (non-zero exit, nothing delivered or printed)
+or is the instruction loop on the default instructions or on the selected non-empty control file -/
+theorem C13_run_cases (a : Args) (w : World) :
+    (∃ code, code ≠ 0 ∧ Refused (run a w) code) ∨
+    (∃ r0, run a w = deliver a w a.aliasempty false r0) ∨
+    (∃ c mode content r0, qmeSelect w.fs (qmeCandidates a.dash (safeext a.ext)) = .found c mode content ∧ content ≠ [] ∧
+        run a w = deliver a w content (mode &&& xBit ≠ 0) r0) :=
+  run_cases a w
+
+/-! ### Reading a line; the envelope sender of forwarded copies -/
+
+/-- **Instruction types.** The `switch` on the first character (after removing trailing blanks) reads every line
+exactly as dot-qmail(5) documents it: `#` comment, `|` program, `&` or any other character forward, `.` or `/`
+mbox — maildir iff the line ends in `/` —, `+list`; for every byte string. -/
+theorem C13_line_spec (raw : Bytes) : specOfLine (classify raw) = LocalSpec.readLine raw := classify_eq_spec raw
+
+/-- **-owner / VERP.** Bounces keep their sender; otherwise `local-owner@host` if `.qmail…-owner` exists,
+`local-owner-@host-@[]` if `…-owner-default` exists as well, else the original sender — as documented. -/
+theorem C13_owner (loc dash sx host sender : Bytes) (ex : Bytes → Option Bool) (o1 o2 : Bool)
+    (h1 : ex (dotQmail ++ dash ++ sx ++ ownerB) = some o1)
+    (h2 : ex (dotQmail ++ dash ++ sx ++ ownerDefaultB) = some o2) :
+    ueoOf loc dash sx host sender ex = .ok (LocalSpec.forwardSender loc host sender o1 o2) :=
+  ueoOf_eq_spec loc dash sx host sender ex o1 o2 h1 h2
+
+/-! ### Program exit codes -/
+
+/-- **Exit-code map** (table regenerated from `mailprogram`'s switch on every run): for every exit status,
+0 continues, 99 stops, 100 and 64, 65, 70, 76, 77, 78, 112 are permanent (exit 100), everything else is
+temporary (exit 111) — exactly qmail-command(8). -/
+theorem C13_exitmap (code : Nat) :
+    progClass code = (match LocalSpec.exitVerdict code with
+      | .ok => .ok | .stop => .stop99 | .hard => .exit 100 | .soft => .exit 111) :=
+  progClass_spec code
+
+/-- a command that crashed is a temporary failure -/
+theorem C13_crash (px : Bytes → PRes) (dx : Instr → Option Why) (raw : Bytes) (rest : List Bytes) (c : Bytes) (first : Bool)
+    (hc : classify raw = .act (.program c)) (hp : px (cstr c) = .crashed) :
+    dispatch px dx first false (raw :: rest) = ⟨[.program c], .die .childCrashed⟩ ∧ Why.childCrashed.code = 111 := by
+  refine ⟨?_, by decide⟩
+  rw [dispatch, hc]; simp [hp]
+
+/-! ### Loops -/
+
+/-- the header scan of `bouncexf` is the documented rule, for every message and every recipient -/
+theorem C13_loop_spec (loc host msg : Bytes) : bouncexf (dtline loc host) msg = LocalSpec.loops loc host msg :=
+  bouncexf_eq_spec loc host msg
+
+/-- **Loop cut.** A message whose header already carries this recipient's Delivered-To line bounces (100)
+before any file is looked up and before anything is delivered. -/
+theorem C13_loop (a : Args) (w : World) (hh : HomeOK a w) (hd : a.doit = true)
+    (hl : LocalSpec.loops a.loc a.host a.msg = true) :
+    Refused (run a w) 100 ∧ (run a w).why = some .looping ∧ (run a w).tried = [] := by
+  refine ⟨(run_looping a w hh hd hl).1, (run_looping a w hh hd hl).2, ?_⟩
+  obtain ⟨warn, hh⟩ := hh
+  rw [← bouncexf_eq_spec] at hl
+  simp only [run, hh]; simp [hd, hl]
+
+/-! ### Header injection -/
+
+/-- **No injection.** Whatever bytes the envelope addresses contain (newlines, quotes, blanks), the Delivered-To
+and Return-Path fields are exactly one line each. -/
+theorem C13_noinject (loc host sender : Bytes) :
+    LocalSpec.oneLine (dtline loc host) = true ∧ LocalSpec.oneLine (rpline sender) = true :=
+  ⟨dtline_oneLine loc host, rpline_oneLine sender⟩
+
+/-- the line used for loop detection is the documented one -/
+theorem C13_dtline (loc host : Bytes) : dtline loc host = LocalSpec.dtline loc host := dtline_eq_spec loc host
+
+/-! ### Non-vacuity (45 = '-', 46 = '.', 97 = 'a', 66 = 'B') -/
+
+/-- ext "a-B.c-": .qmail-a-b:c-, .qmail-a-b:c-default, .qmail-a-default, .qmail-default -/
+example : (qmeCandidates [45] (safeext [97, 45, 66, 46, 99, 45])).map Cand.name =
+    [[46, 113, 109, 97, 105, 108, 45, 97, 45, 98, 58, 99, 45],
+     [46, 113, 109, 97, 105, 108, 45, 97, 45, 98, 58, 99, 45, 100, 101, 102, 97, 117, 108, 116],
+     [46, 113, 109, 97, 105, 108, 45, 97, 45, 100, 101, 102, 97, 117, 108, 116],
+     [46, 113, 109, 97, 105, 108, 45, 100, 101, 102, 97, 117, 108, 116]] := by decide
+
+/-- "&f@x", "|exit 99", "./mb", "g@x" with the command returning 99: the forward before it is kept, the rest ignored -/
+example : dispatch (fun _ => .exited 99) (fun _ => none) true false
+    [[38, 102, 64, 120], [124, 101, 120, 105, 116, 32, 57, 57], [46, 47, 109, 98], [103, 64, 120]] =
+    ⟨[.forward [102, 64, 120], .program [101, 120, 105, 116, 32, 57, 57]], .stop99⟩ := by decide
+
+/-- "+list" then "./mb": refused -/
+example : dispatch (fun _ => .exited 0) (fun _ => none) true false [[43, 108, 105, 115, 116], [46, 47, 109, 98]] =
+    ⟨[], .die .xbitFile⟩ := by decide
+
+/-- a header carrying "Delivered-To: a@h" loops for recipient a@h; the same line in the body does not -/
+example : LocalSpec.loops [97] [104] ([88, 58, 10] ++ LocalSpec.dtline [97] [104] ++ [10, 98, 10]) = true := by decide
+example : LocalSpec.loops [97] [104] ([88, 58, 10, 10] ++ LocalSpec.dtline [97] [104]) = false := by decide
+
+/-- recipient "a\nB" at host "h": the newline becomes '_' -/
+example : dtline [97, 10, 66] [104] = [68, 101, 108, 105, 118, 101, 114, 101, 100, 45, 84, 111, 58, 32, 97, 95, 66, 64, 104, 10] := by
+  decide
 
 end Nq.Props.C13
